@@ -2,8 +2,10 @@ package main
 
 import (
 	"math"
+	"regexp"
 	"strconv"
 	"strings"
+	"sync"
 
 	"golang.org/x/tools/go/ssa"
 )
@@ -240,6 +242,113 @@ func (x *Exec) nativeMath(fn *ssa.Function, args []Val) (Val, bool) {
 	case "Modf":
 		a, b := math.Modf(f[0])
 		return TupleV{fv(a), fv(b)}, true
+	}
+	return nil, false
+}
+
+// ---- regexp on concrete operands: the real regexp package (any pattern), like strings.* on concrete arguments
+
+var nativeRegexps sync.Map // pattern text -> *regexp.Regexp
+
+func intSlice(v []int) Val {
+	if v == nil {
+		return SliceV{}
+	}
+	arr := &ArrV{E: make([]*Cell, len(v))}
+	for i, e := range v {
+		arr.E[i] = &Cell{V: cbv(64, uint64(int64(e)))}
+	}
+	return SliceV{A: arr, Len: len(v), Cap: len(v)}
+}
+
+func (x *Exec) nativeRegexp(fn *ssa.Function, args []Val) (Val, bool) {
+	name := x.w.name(fn)
+	if !strings.HasPrefix(name, "(*regexp.Regexp).") || len(args) < 2 {
+		return nil, false
+	}
+	p, ok := args[0].(PtrV)
+	if !ok || p.C == nil {
+		return nil, false
+	}
+	pv, ok := p.C.V.(StrV)
+	if !ok {
+		return nil, false
+	}
+	pat, ok := pv.concrete()
+	if !ok {
+		return nil, false
+	}
+	sv, ok := args[1].(StrV)
+	if !ok {
+		return nil, false
+	}
+	src, ok := sv.concrete()
+	if !ok {
+		return nil, false
+	}
+	var re *regexp.Regexp
+	if c, ok := nativeRegexps.Load(pat); ok {
+		re = c.(*regexp.Regexp)
+	} else {
+		r, err := regexp.Compile(pat)
+		if err != nil {
+			return nil, false
+		}
+		nativeRegexps.Store(pat, r)
+		re = r
+	}
+	n := func(i int) (int, bool) {
+		b, ok := args[i].(BV)
+		if !ok || !b.Con {
+			return 0, false
+		}
+		return int(sext(BV{W: 64, Con: true, C: b.C})), true
+	}
+	switch fn.Name() {
+	case "MatchString":
+		return cbool(re.MatchString(src)), true
+	case "FindString":
+		return cstr(re.FindString(src)), true
+	case "FindStringIndex":
+		return intSlice(re.FindStringIndex(src)), true
+	case "FindAllString":
+		k, ok := n(2)
+		if !ok {
+			return nil, false
+		}
+		res := re.FindAllString(src, k)
+		if res == nil {
+			return SliceV{}, true
+		}
+		arr := &ArrV{E: make([]*Cell, len(res))}
+		for i, e := range res {
+			arr.E[i] = &Cell{V: cstr(e)}
+		}
+		return SliceV{A: arr, Len: len(res), Cap: len(res)}, true
+	case "FindAllStringIndex":
+		k, ok := n(2)
+		if !ok {
+			return nil, false
+		}
+		res := re.FindAllStringIndex(src, k)
+		if res == nil {
+			return SliceV{}, true
+		}
+		arr := &ArrV{E: make([]*Cell, len(res))}
+		for i, e := range res {
+			arr.E[i] = &Cell{V: intSlice(e)}
+		}
+		return SliceV{A: arr, Len: len(res), Cap: len(res)}, true
+	case "ReplaceAllString":
+		rv, ok := args[2].(StrV)
+		if !ok {
+			return nil, false
+		}
+		repl, ok := rv.concrete()
+		if !ok {
+			return nil, false
+		}
+		return cstr(re.ReplaceAllString(src, repl)), true
 	}
 	return nil, false
 }
